@@ -206,7 +206,7 @@ Ltac entry' := first [ entry | trunc_entry | bool_entry ].
 
 Ltac all_entries unf :=
   cbn [list_prod map app];
-  repeat (apply Forall_cons; [ cbn [fst snd]; unf; timeout 60 entry' | ]); apply Forall_nil.
+  repeat (apply Forall_cons; [ cbn [fst snd]; unf; timeout 1200 entry' | ]); apply Forall_nil.
 
 
 Definition ty_pairs : list (gty * gty) := list_prod all_gty all_gty.
